@@ -98,7 +98,18 @@ func TomlKeyToEvCode(key string, lookupTable map[string]evdev.EvCode) (evdev.EvC
 
 }
 
-func ParseData(data []byte) (Config, error) {
+// ParseData parses a device configuration. It never panics: a panic of the TOML decoder
+// (go-toml v2.0.3 has several on unusual but valid documents) is reported as an error.
+func ParseData(data []byte) (conf Config, err error) {
+	defer func() {
+		if r := recover(); r != nil {
+			conf, err = Config{}, fmt.Errorf("parsing failed: %v", r)
+		}
+	}()
+	return parseData(data)
+}
+
+func parseData(data []byte) (Config, error) {
 	cfg := TOMLDeviceConfig{}
 
 	d := toml.NewDecoder(bytes.NewReader(data))
